@@ -73,7 +73,18 @@ def run_job(job):
                                 (300.0 if os.environ.get("VERIF_TIER_ACTIVE", "quick") == "quick" else 2400.0))
                 if os.environ.get("VERIF_TIER_ACTIVE") == "thorough":
                     opts.setdefault("crosscheck", 2)      # two queries per job are decided a second time by cvc5
-                res = sx.explore(_isolated(fn), job.params, **opts)
+                # hard wall-clock limit (the time budget is only looked at between paths): a single runaway path of a
+                # changed tree ends as INCONCLUSIVE instead of hanging the check
+                import signal
+
+                def _alarm(signum, frame):
+                    raise sx.Inconclusive("job wall-clock limit reached inside one path")
+                signal.signal(signal.SIGALRM, _alarm)
+                signal.alarm(int(opts["time_budget"] * 2) + 30)
+                try:
+                    res = sx.explore(_isolated(fn), job.params, **opts)
+                finally:
+                    signal.alarm(0)
         finally:
             sys.setprofile(None)
             if undo is not None:
